@@ -201,3 +201,9 @@ Theorem C04_root_run_decide_never_panics : forall U P, WF U -> forall A a_ge a_c
   let st0 := mkS (estate0 cache0) [mkCl KRoot [(VRoot, true)]] ps0 [] [] a0 0 [] order true [] in
   run_loop_dp U P A a_ge a_conflict fuel efuel st0 None 0 0 = false.
 Proof. exact root_run_decide_never_panics. Qed.
+
+(* the run in question is what solve starts with: run_sat for the root from the initial state *)
+Theorem C04_root_run_is_run_loop : forall U P A a_ge a_conflict fuel efuel (a0 : A) order,
+  let st0 := mkS (estate0 cache0) [mkCl KRoot [(VRoot, true)]] ps0 [] [] a0 0 [] order true [] in
+  run_sat U P a_ge a_conflict fuel efuel st0 None = run_loop U P a_ge a_conflict fuel efuel st0 None 0 0.
+Proof. exact root_run_is_run_loop. Qed.
